@@ -9,7 +9,7 @@ env = dict(os.environ, GOFLAGS="-mod=mod", GOPROXY="off")
 wt = tempfile.mkdtemp(prefix="seedchk-", dir="/tmp")
 os.rmdir(wt)
 def sh(cmd, cwd=wt, timeout=3600):
-    return subprocess.run(cmd, shell=True, cwd=cwd, env=env, capture_output=True, text=True, timeout=timeout)
+    return subprocess.run(cmd, shell=True, cwd=cwd, env=env, capture_output=True, text=True, errors='replace', timeout=timeout)
 subprocess.run(["git", "-C", "/repo", "worktree", "add", "-q", wt, "HEAD"], check=True)
 res = {"id": sid}
 try:
